@@ -40,8 +40,8 @@ def f32(x: float) -> float:
     return struct.unpack("<f", struct.pack("<f", x))[0]
 
 
-FLOAT_ALPHA = [0.0, 1.5, -1.5, f32(0.1), F32_MAX, F32_DENORM, math.inf, -math.inf, math.nan]
-DOUBLE_ALPHA = [0.0, 1.5, -1.5, 0.1, F32_MAX, 5e-324, 1.7976931348623157e308,
+FLOAT_ALPHA = [0.0, -0.0, 1.5, -1.5, f32(0.1), F32_MAX, F32_DENORM, math.inf, -math.inf, math.nan]
+DOUBLE_ALPHA = [0.0, -0.0, 1.5, -1.5, 0.1, F32_MAX, 5e-324, 1.7976931348623157e308,
                 math.inf, -math.inf, math.nan]
 STRING_ALPHA = ["", "a", "é", "\U0001F600", "\x00", "x" * 128,
                 "y" * 125, "y" * 126, "y" * 127, "y" * 129, "z" * 16381, "z" * 16382, "z" * 16383, "z" * 16384]
@@ -191,7 +191,7 @@ def canon(v: Any) -> Any:
             return "f:nan"
         if math.isinf(v):
             return "f:inf" if v > 0 else "f:-inf"
-        return "f:" + repr(v + 0.0 if v != 0 else 0.0)
+        return "f:" + repr(v)  # -0.0 and 0.0 are different values (the reference keeps the sign)
     if isinstance(v, int):
         return int(v)
     if isinstance(v, bytes):
@@ -254,8 +254,8 @@ def normalize(schema: Schema, m: Msg, aval: Dict[str, Any]) -> Dict[str, Any]:
             else:
                 nv = _norm_elem(schema, f.kind, v)
                 d = scalar_default(f.kind)
-                if isinstance(nv, float) and math.isnan(nv):
-                    out[f.name] = nv
+                if isinstance(nv, float) and (math.isnan(nv) or (nv == 0 and math.copysign(1.0, nv) < 0)):
+                    out[f.name] = nv  # NaN and -0.0 are not the default: they are sent
                 elif nv != d:
                     out[f.name] = nv
     return out
@@ -412,7 +412,7 @@ def make_bp(ns, schema: Schema, m: Msg, aval: Dict[str, Any], route: str):
     documents: by assigning a (default) value inside it.
     """
     cls = getattr(ns, m.name)
-    if route == "ctor":
+    if route in ("ctor", "ctor_fresh"):
         kwargs = {}
         for f in m.fields:
             if f.name in aval:
@@ -422,6 +422,9 @@ def make_bp(ns, schema: Schema, m: Msg, aval: Dict[str, Any], route: str):
             pass
         return cls(**kwargs)
     msg = cls()
+    if route == "lazy":
+        _bp_fill_lazy(ns, schema, m, msg, aval)
+        return msg
     for f in m.fields:
         if f.name not in aval:
             continue
@@ -476,6 +479,49 @@ def _bp_fill_inplace(ns, schema, m: Msg, sub, aval) -> None:
             setattr(sub, f.name, _bp_container(ns, schema, f, v, "inplace"))
 
 
+def _bp_fill_lazy(ns, schema, m: Msg, msg, aval) -> None:
+    """The README idiom and nothing else: sub-messages are only ever READ (created lazily), lists
+    and maps are changed in place, nothing is assigned back: ``m.child.child.v = 3``,
+    ``m.child.kids.append(x)``, ``m.child.m[k] = x``."""
+    for f in m.fields:
+        if f.name not in aval:
+            continue
+        v = aval[f.name]
+        if f.card == "repeated":
+            cur = getattr(msg, f.name)
+            for x in v:
+                cur.append(_bp_single(ns, schema, f, x, "ctor"))
+        elif f.card == "map":
+            cur = getattr(msg, f.name)
+            for k, x in v.items():
+                cur[k] = _bp_single(ns, schema, f, x, "ctor")
+        elif f.card == "single" and f.base == "msg":
+            _bp_fill_lazy(ns, schema, schema.msg(kind_arg(f.kind)), getattr(msg, f.name), v)
+        else:
+            setattr(msg, f.name, _bp_container(ns, schema, f, v, "setattr"))
+
+
+def has_lazy_variant(schema: Schema, m: Msg, aval: Dict[str, Any], top: bool = True) -> bool:
+    """The 'lazy' route applies when the value has content below a plain sub-message field and no
+    plain sub-message on the way is empty (an empty one needs an assignment to become present:
+    that is the 'inplace' route; presence of default-only content below lazily created parents is
+    the recorded finding KF-nested-inplace-presence and is C06's business)."""
+    found = False
+    for f in m.fields:
+        if f.name not in aval or not (f.card == "single" and f.base == "msg"):
+            continue
+        sm = schema.msg(kind_arg(f.kind))
+        v = aval[f.name]
+        if not normalize(schema, sm, v):
+            return False
+        for g in sm.fields:  # every plain sub-message below must be non-empty too
+            if g.name in v and g.card == "single" and g.base == "msg":
+                if not has_lazy_variant(schema, sm, v, False):
+                    return False
+        found = True
+    return found
+
+
 def _bp_touch(m: Msg, sub) -> None:
     """Make an empty sub-message present by 'assigning something inside it'."""
     f = _first_scalar_field(m)
@@ -490,8 +536,12 @@ def _bp_single(ns, schema: Schema, f: Field, v: Any, route: str):
     if b == "msg":
         sm = schema.msg(kind_arg(f.kind))
         sub = make_bp(ns, schema, sm, v, "setattr" if route == "inplace" else route)
+        if route.endswith("_fresh") and f.card != "single":
+            # optional / oneof / repeated / map positions: the element is present because it is
+            # THERE; a freshly constructed (untouched) instance must do
+            return sub
         if not normalize(schema, sm, v) and sm.fields and not sub._serialized_on_wire:
-            if route == "ctor":
+            if route in ("ctor", "ctor_fresh"):
                 fs = _first_scalar_field(sm)
                 if fs is not None:
                     sub = getattr(ns, sm.name)(**{fs.name: scalar_default(fs.kind)})
@@ -501,6 +551,25 @@ def _bp_single(ns, schema: Schema, f: Field, v: Any, route: str):
                 _bp_touch(sm, sub)
         return sub
     return _bp_elem(ns, schema, f.kind, v, route)
+
+
+def has_fresh_variant(schema: Schema, m: Msg, aval: Dict[str, Any]) -> bool:
+    """True when the value holds an EMPTY message in an optional / oneof / repeated / map position
+    (at any depth): the '*_fresh' routes then build a different object than the plain ones."""
+    for f in m.fields:
+        if f.name not in aval or f.base != "msg":
+            continue
+        sm = schema.msg(kind_arg(f.kind))
+        v = aval[f.name]
+        items = list(v) if f.card == "repeated" else list(v.values()) if f.card == "map" else [v]
+        for x in items:
+            if not isinstance(x, dict):
+                continue
+            if f.card != "single" and not normalize(schema, sm, x) and sm.fields:
+                return True
+            if has_fresh_variant(schema, sm, x):
+                return True
+    return False
 
 
 def _bp_container(ns, schema: Schema, f: Field, v: Any, route: str):
@@ -681,7 +750,9 @@ def vclass(kind: str, v: Any) -> str:
             return "nan"
         if math.isinf(v):
             return "inf"
-        return "zero" if v == 0 else "finite"
+        if v == 0:
+            return "negzero" if math.copysign(1.0, v) < 0 else "zero"
+        return "finite"
     if b == "bool":
         return "true" if v else "false"
     if b in ("string", "bytes"):
